@@ -6,12 +6,12 @@ Open Scope N_scope.
 Definition nonempty (s : str) : bool := match s with [] => false | _ => true end.
 
 (* ---------------- SemVer::from(Zerv) ---------------- *)
-Definition classify_u32 (part : str) : ident :=
-  match parse_u32 part with Some n => IUInt n | None => IStr part end.
+Definition classify_u64 (part : str) : ident :=
+  match parse_u64 part with Some n => IUInt n | None => IStr part end.
 
 (* add_flattened_to_prerelease / add_flattened_to_build *)
 Definition flatten_ids (value : str) : list ident :=
-  map classify_u32 (filter nonempty (split_on c_dot value)).
+  map classify_u64 (filter nonempty (split_on c_dot value)).
 
 Definition push_ids (o : option (list ident)) (l : list ident) : option (list ident) :=
   match l with [] => o | _ => Some (match o with Some x => x ++ l | None => l end) end.
@@ -25,7 +25,7 @@ Fixpoint sv_process_core (cs : list component) (vs : vars) (count : nat) (a : sv
   | c :: cs' =>
     let as_int :=
       match comp_value c vs uint_sanitizer with
-      | Some v => if nonempty v then match parse_u32 v with Some n => if Nat.ltb count 3 then Some n else None | None => None end else None
+      | Some v => if nonempty v then match parse_u64 v with Some n => if Nat.ltb count 3 then Some n else None | None => None end else None
       | None => None
       end in
     match as_int with
@@ -50,7 +50,7 @@ Fixpoint sv_process_core (cs : list component) (vs : vars) (count : nat) (a : sv
 
 (* process_secondary_var: every expanded value is one identifier (no splitting on dots) *)
 Definition sv_secondary (v : var) (vs : vars) : list ident :=
-  map classify_u32 (filter nonempty (var_expanded v vs semver_str)).
+  map classify_u64 (filter nonempty (var_expanded v vs semver_str)).
 
 Definition sv_extra_ids (c : component) (vs : vars) : list ident :=
   match c with
@@ -91,6 +91,12 @@ Definition flatten_local (value : str) : option (list lseg) :=
 
 Definition push_local (o : option (list lseg)) (l : list lseg) : option (list lseg) :=
   match l with [] => o | _ => Some (match o with Some x => x ++ l | None => l end) end.
+
+Definition u64_value (c : component) (vs : vars) : option N :=
+  match comp_value c vs uint_sanitizer with
+  | Some v => if nonempty v then parse_u64 v else None
+  | None => None
+  end.
 
 Definition u32_value (c : component) (vs : vars) : option N :=
   match comp_value c vs uint_sanitizer with
